@@ -653,8 +653,28 @@ func (w *World) exemptThroughCallers(fn *ssa.Function, exempt map[string]string,
 		return ""
 	}
 	reason := ""
+	var callers []*ssa.Function
 	for _, e := range node.In {
 		c := e.Caller.Func
+		if c.Synthetic != "" && c.Package() != root.Package() {
+			// a bound-method wrapper (`t.finish` used as a value): what matters is who creates it
+			found := false
+			for _, g := range w.pkgFuncs() {
+				instrsOf(g, func(in ssa.Instruction) {
+					if mc, ok := in.(*ssa.MakeClosure); ok && mc.Fn == ssa.Value(c) {
+						callers = append(callers, g)
+						found = true
+					}
+				})
+			}
+			if !found {
+				return ""
+			}
+			continue
+		}
+		callers = append(callers, c)
+	}
+	for _, c := range callers {
 		if c.Package() != root.Package() {
 			return ""
 		}
